@@ -34,6 +34,7 @@ type COp struct {
 }
 
 type ConcPlan struct {
+	Transport
 	BufSize int     `json:"bufsize"`
 	Clients [][]COp `json:"clients"`
 }
@@ -60,6 +61,7 @@ func runConc(p ConcPlan) (fail string, classes []string) {
 	if err != nil {
 		return "fixture: " + err.Error(), nil
 	}
+	p.Transport.apply(b)
 	defer b.Shutdown()
 	var clock atomic.Int64
 	tick := func() int64 { return clock.Add(1) }
@@ -298,6 +300,7 @@ func genConc(t *rapid.T) ConcPlan {
 		}
 		p.Clients = append(p.Clients, ops)
 	}
+	p.Transport = genTransport(t)
 	return p
 }
 
